@@ -667,4 +667,46 @@ example : gibbsProbabilities exPed exState 2 0 = exConditional ∧
     restWith trioPmfCode exPed exState 2 ≠ 0 ∧ isChild exPed 2 2 = false := by
   decide +kernel
 
+/-! ### the swap when the two parents are the same individual (selfing) -/
+
+/-- exchanging two entries of a list is a permutation -/
+theorem set_set_perm (l : List ℕ) (i j : ℕ) (hi : i < l.length) (hj : j < l.length) :
+    ((l.set i l[j]).set j l[i]).Perm l := by
+  rw [List.perm_iff_count]
+  intro x
+  by_cases hij : i = j
+  · subst hij
+    rw [List.set_set, List.set_getElem_self]
+  · have hj' : j < (l.set i l[j]).length := by simpa using hj
+    rw [List.count_set hj', List.count_set hi, List.getElem_set_ne hij]
+    have p1 : 0 < l.count l[i] := List.count_pos_iff.mpr (List.getElem_mem hi)
+    have p2 : 0 < l.count l[j] := List.count_pos_iff.mpr (List.getElem_mem hj)
+    by_cases e1 : l[i] = x <;> by_cases e2 : l[j] = x <;> simp [e1, e2] <;> (try subst e1) <;> (try subst e2) <;> omega
+
+/-- **the parental allele swap under selfing** (`p = q`): the step exchanges two entries of the one
+    genotype, so the unordered genotype of every individual is unchanged whatever the decision -/
+theorem swap_self_perm (s : PedState) (p ip iq : ℕ) (hp : p < s.length)
+    (hip : ip < (s.getD p []).length) (hiq : iq < (s.getD p []).length) :
+    (swapState s p p ip iq).length = s.length ∧
+    ((swapState s p p ip iq).getD p []).Perm (s.getD p []) ∧
+    ∀ i, i ≠ p → (swapState s p p ip iq).getD i [] = s.getD i [] := by
+  have hrow : s.getD p [] = s[p] := by simp [List.getD_eq_getElem?_getD, hp]
+  rw [hrow] at hip hiq
+  have hst : swapState s p p ip iq = s.set p ((s[p].set ip (s[p])[iq]).set iq (s[p])[ip]) := by
+    unfold swapState
+    simp only [hrow]
+    have a1 : (s[p]).getD ip 0 = (s[p])[ip] := by simp [List.getD_eq_getElem?_getD, hip]
+    have a2 : (s[p]).getD iq 0 = (s[p])[iq] := by simp [List.getD_eq_getElem?_getD, hiq]
+    have a3 : (s.set p (s[p].set ip (s[p])[iq])).getD p [] = s[p].set ip (s[p])[iq] := by
+      simp [List.getD_eq_getElem?_getD, hp]
+    rw [a1, a2, a3, List.set_set]
+  rw [hst]
+  refine ⟨by simp, ?_, ?_⟩
+  · have : (s.set p ((s[p].set ip (s[p])[iq]).set iq (s[p])[ip])).getD p []
+        = (s[p].set ip (s[p])[iq]).set iq (s[p])[ip] := by simp [List.getD_eq_getElem?_getD, hp]
+    rw [this, hrow]
+    exact set_set_perm s[p] ip iq hip hiq
+  · intro i hi
+    simp [List.getD_eq_getElem?_getD, List.getElem?_set_ne (Ne.symm hi)]
+
 end MCHap.C18
